@@ -75,7 +75,18 @@ var c09FragKeys = []string{"src", "line", "k", "key", "num", "arr", "nokey"}
 
 type c09FragGen struct {
 	r    *Rand
-	wild bool // streex: break the rules now and then
+	wild bool     // streex: break the rules now and then
+	user []string // C10 `ftree`: funcs-file functions defined so far (callable in value positions)
+}
+
+// a call of a funcs-file function: any arguments
+func (g *c09FragGen) userCall(depth int) *c09Node {
+	t := &c09Node{kind: 'C', text: Pick(g.r, g.user), lead: g.ws(0), trail: g.ws(0)}
+	for i, argc := 0, 1+g.r.Intn(3); i < argc; i++ {
+		t.seps = append(t.seps, g.ws(1))
+		t.kids = append(t.kids, g.arg(fkV, depth-1))
+	}
+	return t
 }
 
 func (g *c09FragGen) ws(min int) string { return c09Ws(g.r, min) }
@@ -171,6 +182,9 @@ func (g *c09FragGen) arg(kind, depth int) *c09Node {
 		return g.lit(Pick(g.r, c09FragTexts))
 	}
 	// any value
+	if len(g.user) > 0 && depth > 0 && g.r.Chance(1, 3) {
+		return g.userCall(depth)
+	}
 	switch k := g.r.Intn(10); {
 	case depth <= 0 && k < 5, k < 2:
 		return g.lit(Pick(g.r, append(append([]string{}, c09FragTexts...), c09FragInts...)))
